@@ -216,7 +216,6 @@ func runC12(p *core.Program, r *core.Report) {
 	r.Floor("R12.3", "success returns in the full-index branch", nFull, 1)
 }
 
-
 func constInt64(v interface{ String() string }) (int64, bool) {
 	var i int64
 	_, err := fmt.Sscan(v.String(), &i)
